@@ -163,7 +163,13 @@ impl Output {
                         // Rename the old output file so that we can create a new file in its place.
                         // Reusing the existing file would also be an option, but that wouldn't
                         // error if the file is currently being executed.
-                        let renamed_old_file = path.with_extension("delete");
+                        // Pick a name that won't collide with some other file in the same
+                        // directory, e.g. renaming `lib.so` to `lib.delete` could clobber a file
+                        // that the user cares about.
+                        let mut temp_name = std::ffi::OsString::from(".");
+                        temp_name.push(path.file_name().unwrap_or_default());
+                        temp_name.push(format!(".{}.wild-delete", std::process::id()));
+                        let renamed_old_file = path.with_file_name(temp_name);
                         let rename_status = std::fs::rename(&path, &renamed_old_file);
 
                         // If there was an old output file that we renamed, then delete it. We do so
